@@ -30,6 +30,7 @@ def sameKey : Key → Key → Bool
   | .dec a, .dec b | .dec a, .dbl b _ | .dbl a _, .dec b | .dbl a _, .dbl b _ => a == b
   | .date _ u tz, .date _ u' tz' => tz.isSome == tz'.isSome && u == u'
   | .bool a, .bool b => a == b
+  | .opq t r, .opq t' r' => t == t' && r == r'      -- QName, durations, hexBinary, base64Binary: `eq`
   | _, _ => false
 
 /-! ### §17.1 maps (α = the type of values, i.e. sequences) -/
@@ -152,6 +153,38 @@ def arrIndex : Key → Except Err Int
   | .int v => .ok v
   | _ => .error .XPTY0004
 
+/-- xs:double value of a numeric atom for `eq` with promotion (F&O §4.2: the other operand is
+converted to xs:double): `roundDbl` is the shared model of that conversion -/
+def toDbl : Key → Option (Option Rat × Bool × Bool)   -- (finite value, isNaN, is -INF/+INF sign)
+  | .int v => some (some (roundDbl v), false, false)
+  | .dec v => some (some (roundDbl v), false, false)
+  | .dbl v _ => some (some v, false, false)
+  | .dnan => some (none, true, false)
+  | .dinf n => some (none, false, n)
+  | _ => none
+
+/-- F&O §15.3.1 fn:deep-equal, the rule for two atomic values: "true if `$i1 eq $i2`, or if both
+are NaN; if `eq` is not defined for the two types, false".  `eq`: numerics after promotion
+(integer/decimal exactly with each other; with a double involved both as doubles), strings and
+anyURIs by code points, booleans, dates by their starting instants (a missing timezone is the
+implicit timezone, taken as Z), QNames / durations / binaries of the same kind by value. -/
+def atomDeepEqual (a b : Key) : Bool :=
+  match a, b with
+  | .dnan, .dnan => true
+  | .int x, .int y => x == y
+  | .int x, .dec y | .dec y, .int x => (x : Rat) == y
+  | .dec x, .dec y => x == y
+  | .dbl _ _, _ | _, .dbl _ _ | .dinf _, _ | _, .dinf _ =>
+    match toDbl a, toDbl b with
+    | some (some x, _, _), some (some y, _, _) => x == y
+    | some (none, false, n), some (none, false, m) => n == m
+    | _, _ => false
+  | .str s, .str t | .str s, .uri t | .uri s, .str t | .uri s, .uri t => s == t
+  | .bool x, .bool y => x == y
+  | .date _ u _, .date _ u' _ => u == u'
+  | .opq t r, .opq t' r' => t == t' && r == r'
+  | _, _ => false
+
 /-- the interpreter skeleton of the model instantiated with the F&O definitions above -/
 def specDialect : Dialect where
   alias := false
@@ -160,6 +193,8 @@ def specDialect : Dialect where
   mapRemove := fun m ks => .ok (remove m ks)
   mapGet := get
   mapContains := contains
+  mapHas := contains
+  atomEq := atomDeepEqual
   mapMerge := merge
   findEq := fun a b => sameKey a b
   arrIndex := arrIndex
